@@ -9,3 +9,6 @@ import AnyTLS.Props.C05
 #print axioms AnyTLS.C05.preamble_exact
 #print axioms AnyTLS.C05.packet_index
 #print axioms AnyTLS.C05.pinned_first_packet_uses_line_zero
+#print axioms AnyTLS.C05.gen_preamble_uses_session_scheme
+#print axioms AnyTLS.C05.preamble_scheme_is_session_scheme
+#print axioms AnyTLS.C05.configured_preamble_differs
